@@ -1,4 +1,4 @@
-//@unit tier=quick isolation=yes
+//@unit tier=quick
 // C04 (cover tree part): CoverTree::find_radius returns exactly the data points within the radius, provided the tree
 // satisfies the structural invariant `tree_wf` below and the distance obeys the triangle inequality on the data
 // points and the query (`metric_on`).  That CoverTree::new establishes `tree_wf` is NOT proved (assumption A-COVERTREE-NEW-WF).
@@ -311,8 +311,6 @@ impl<T: Debug + PartialEq, F: RealNumber, D: Distance<T, F>> CoverTree<T, F, D> 
                 self.zero_ok(p, radius, zero_set@),
                 self.counts_ok(p, radius, zero_set@, Seq::empty(), Seq::empty(), 0, current_cover_set@, 0), //# inv-each-point-in-play-at-most-once-and-once-if-within
                 neighbors@.len() == 0,
-            ensures
-                current_cover_set@ =~= Seq::empty(),
             decreases h
 //@loopbody 1
             let ghost cs = current_cover_set@;
@@ -398,10 +396,13 @@ impl<T: Debug + PartialEq, F: RealNumber, D: Distance<T, F>> CoverTree<T, F, D> 
             }
 //@loop 4
             invariant
+                // the descent is over: nothing is queued any more (the loop test of loop 1 failed; a loop that is not isolated
+                // cannot have `ensures`, so this is carried to the tail, where it turns into `current_cover_set@ =~= Seq::empty()`)
+                current_cover_set@.len() == 0,
                 self.tree_wf(),
                 VERUS_ghost_iter.seq() == zero_set@,
                 self.zero_ok(p, radius, zero_set@),
-                self.counts_ok(p, radius, zero_set@, Seq::empty(), Seq::empty(), 0, Seq::empty(), 0),
+                self.counts_ok(p, radius, zero_set@, Seq::empty(), Seq::empty(), 0, current_cover_set@, 0),
                 neighbors@.len() == VERUS_ghost_iter.index@,
                 forall|a: int| 0 <= a < neighbors@.len() ==> (#[trigger] neighbors@[a]).0 == zero_set@[a].1.idx && neighbors@[a].1 == zero_set@[a].0
                     && *neighbors@[a].2 == self.data@[zero_set@[a].1.idx as int], //# inv-result-entry-is-index-distance-point
@@ -411,7 +412,10 @@ impl<T: Debug + PartialEq, F: RealNumber, D: Distance<T, F>> CoverTree<T, F, D> 
                 assert(0 <= a < zero_set@.len() && ds == zero_set@[a]);
             }
 //@tail
-        proof { self.lemma_answer(p, radius, zero_set@, neighbors@); }
+        proof {
+            assert(current_cover_set@ =~= Seq::empty());
+            self.lemma_answer(p, radius, zero_set@, neighbors@);
+        }
 //@end
 }
 
